@@ -41,7 +41,7 @@ def handleLine (line : String) : String :=
       | "writer" => handleWriter args
       | "namegen" => handleNamegen args
       | "uuid" => (match args with
-        | [r] => (match RecordId.recordIdField (hx r) with | some v => toHex v | none => "err")
+        | [r] => joinWith "|" ((RecordId.draws (hx r)).map (fun d => match RecordId.recordIdField d with | some v => toHex v | none => "err"))
         | _ => "bad-args")
       | "uuidconc" => "impl-only" -- C02_id_injective: distinct draws give distinct ids; the repeat oracle judges the draws
       | "cuts" => handleCuts args
